@@ -114,6 +114,8 @@ abort_guard = bool(re.search(r"in_abort_signal_recv\s*,\s*if\s*!\s*abort_signal_
 completion_guard = bool(re.search(r"evaled_individuals\.try_next\(\)\s*,\s*if\b", loop_body or ""))
 n_branches = len(re.findall(r"=>\s*\{", (loop_body or "").split("match evaled_individual")[0])) + 1 if loop_body else 0
 
+csv_fmt = find(r'format!\(\s*"((?:\{\};)+\{\})\\n"\s*,(.*?)\)\s*\n\s*\}', strip_tests(detailed), "to_csv_row format! call", "", props="C14")
+csv_fields = [re.sub(r"^self\.", "", a.strip()).split(".")[0] for a in ((csv_fmt and re.search(r'format!\(\s*"(?:\{\};)+\{\}\\n"\s*,(.*?)\)\s*\n\s*\}', strip_tests(detailed), re.S).group(1)) or "").split(",") if a.strip()]
 csv_header = find(r'fn get_csv_header_row\(\)[^{]*\{\s*"(.*?)"', detailed, "csv header", "", props="C14")
 csv_header = (csv_header or "").replace("\\n", "\n")
 
@@ -157,6 +159,9 @@ def completionBranchGuarded : Bool := %s
 /-- header row of the detailed report (detailed_report.rs) -/
 def csvHeader : String := %s
 
+/-- the arguments of the `format!` call of `to_csv_row`, in order (detailed_report.rs) -/
+def csvFieldOrder : List String := %s
+
 /-- `meta_adapt::mutate` clamps the mutated mutation scale into `[f64::MIN_POSITIVE, f64::MAX]` (`rescale_scale`) -/
 def scaleClamped : Bool := %s
 
@@ -165,7 +170,7 @@ end Cambrian.Generated
        lean_list(wl["real"]), lean_list(wl["int"]), lean_list(wl["bool"]), lean_list(wl["array"]),
        lean_list(wl["anonMap"]), lean_list(wl["enum"]), lean_list(wl["optional"]), lean_list(wl["const"]),
        json.dumps(def_prefix), json.dumps(member_prefix),
-       "true" if abort_guard else "false", "true" if completion_guard else "false", json.dumps(csv_header or ""), "true" if scale_clamped else "false")
+       "true" if abort_guard else "false", "true" if completion_guard else "false", json.dumps(csv_header or ""), lean_list(csv_fields), "true" if scale_clamped else "false")
 
 old = open(OUT).read() if os.path.exists(OUT) else ""
 if gen != old:
